@@ -22,7 +22,7 @@ var niceClusters = []string{"\u00e9", "\u00f1", "\u00fc", "e\u0301", "n\u0303", 
 
 // whitespace code points (unicode.IsSpace), single and combined
 var spaceTokens = []string{" ", " ", " ", " ", "  ", "   ", "\t", "\u00a0", "\u2003", "\u3000", "\u1680", "\u2000", "\u200a",
-	"\u0085", "\v", "\f", "\r", " \t ", "\u2028", "\u2029", "\u202f", "\u205f"}
+	"\u0085", "\v", "\f", "\r", " \t ", "\u2028", "\u2029", "\u202f", "\u205f", "\r\n", "\r\n", " \r\n", "\n\r"}
 
 // ill-formed orderings and characters that merge with neighbours
 var degenerate = []string{"\u0301", "\u200d", "\u0903", "\U0001F1E9", "\u0600", "\u0001", "\u200b", "\u200d\U0001F467", "\u1112", "\u1161",
@@ -68,6 +68,9 @@ func (g *G) word(deg bool) string {
 
 // text: words separated by whitespace; sep, if non-empty, is sprinkled in as well
 func (g *G) text(maxWords int, deg bool, seps ...string) string {
+	if g.chance(0.1) {
+		return g.asciiText(maxWords)
+	}
 	n := g.r.Intn(maxWords + 1)
 	var b strings.Builder
 	if g.chance(0.2) {
@@ -92,6 +95,28 @@ func (g *G) text(maxWords int, deg bool, seps ...string) string {
 	}
 	if len(seps) > 0 && g.chance(0.3) {
 		b.WriteString(seps[0])
+	}
+	return b.String()
+}
+
+// asciiText: bytes below 128 only, with CR LF pairs (one cluster, two bytes)
+func (g *G) asciiText(maxWords int) string {
+	n := 1 + g.r.Intn(maxWords+1)
+	var b strings.Builder
+	for i := 0; i < n; i++ {
+		b.WriteString(g.pick(asciiWords))
+		switch g.r.Intn(5) {
+		case 0:
+			b.WriteString("\r\n")
+		case 1:
+			b.WriteString("\n")
+		case 2:
+			b.WriteString("  ")
+		case 3:
+			b.WriteString(" \r\n\t")
+		default:
+			b.WriteString(" ")
+		}
 	}
 	return b.String()
 }
@@ -260,7 +285,21 @@ func (g *G) genCase(stream, id string) Case {
 		n := clusterCount(t)
 		switch g.r.Intn(3) {
 		case 0:
-			return one(stream, id, t, Op{Name: "insert", I: []int{g.pos(n)}, S: []string{g.text(3, deg)}})
+			ins := g.text(3, deg)
+			p := g.pos(n)
+			c := one(stream, id, t, Op{Name: "insert", I: []int{p}, S: []string{ins}})
+			// deleting what was just inserted restores the text
+			np := p
+			if p == rosed.End || p > n {
+				np = n
+			} else if p < 0 {
+				np = p + n
+				if np < 0 {
+					np = 0
+				}
+			}
+			c.Steps = append(c.Steps, Op{Recv: 1, Name: "delete", I: []int{np, np + clusterCount(ins)}})
+			return c
 		case 1:
 			return one(stream, id, t, Op{Name: "delete", I: []int{g.pos(n), g.pos(n)}})
 		default:
@@ -319,7 +358,13 @@ func (g *G) genCase(stream, id string) Case {
 		o := g.opts(cleanPairs, false)
 		ls, ps := optsSeps(o)
 		t := g.text(14, deg, ls, ps)
-		return g.viaEditor(one(stream, id, t, Op{Name: "wrap", I: []int{g.width()}, Opts: o}))
+		c := g.viaEditor(one(stream, id, t, Op{Name: "wrap", I: []int{g.width()}, Opts: o}))
+		if g.chance(0.5) { // wrapping already wrapped text changes nothing
+			last := c.Steps[len(c.Steps)-1]
+			last.Recv = len(c.Pool) + len(c.Steps) - 1
+			c.Steps = append(c.Steps, last)
+		}
+		return c
 	case "ws": // C07
 		o := g.opts(sepPairs, false)
 		ls, ps := optsSeps(o)
@@ -337,7 +382,13 @@ func (g *G) genCase(stream, id string) Case {
 		default:
 			op = Op{Name: "indent", I: []int{g.r.Intn(4) - 1}, Opts: o}
 		}
-		return g.viaEditor(one(stream, id, t, op))
+		c := g.viaEditor(one(stream, id, t, op))
+		if op.Name == "collapse" { // CollapseSpace is idempotent
+			last := c.Steps[len(c.Steps)-1]
+			last.Recv = len(c.Pool) + len(c.Steps) - 1
+			c.Steps = append(c.Steps, last)
+		}
+		return c
 	case "justify": // C12
 		o := g.opts(cleanPairs, false)
 		if o != nil && o.PreserveParagraphs {
@@ -395,6 +446,12 @@ func (g *G) genCase(stream, id string) Case {
 		return g.viaEditor(one(stream, id, t, Op{Name: "table", I: []int{g.pos(n), g.width()}, Data: data, Opts: o}))
 	case "hist": // C05, C08
 		return g.history(stream, id, deg)
+	case "opts": // C17
+		return g.optsCase(stream, id, deg)
+	case "total": // C18: degenerate inputs through every operation
+		return g.totalCase(stream, id)
+	case "subst": // C03
+		return g.substCase(stream, id)
 	}
 	panic("unknown stream " + stream)
 }
@@ -465,4 +522,140 @@ func (g *G) history(stream, id string, deg bool) Case {
 		size++
 	}
 	return c
+}
+
+// explicitDefaults replaces a random subset of unset fields by their documented defaults
+func (g *G) explicitDefaults(o rosed.Options) rosed.Options {
+	if o.LineSeparator == "" && g.chance(0.5) {
+		o.LineSeparator = rosed.DefaultLineSeparator
+	}
+	if o.IndentStr == "" && g.chance(0.5) {
+		o.IndentStr = rosed.DefaultIndentString
+	}
+	if o.ParagraphSeparator == "" && g.chance(0.5) {
+		o.ParagraphSeparator = rosed.DefaultParagraphSeparator
+	}
+	if o.TableCharSet == "" && g.chance(0.5) {
+		o.TableCharSet = rosed.DefaultTableCharSet
+	}
+	return o
+}
+
+func (g *G) anyOp(t string, deg bool, o *rosed.Options) Op {
+	n := clusterCount(t)
+	switch g.r.Intn(12) {
+	case 0:
+		return Op{Name: "wrap", I: []int{g.width()}, Opts: o}
+	case 1:
+		return Op{Name: "justify", I: []int{g.width()}, Opts: o}
+	case 2:
+		return Op{Name: "align", I: []int{g.r.Intn(5), g.width()}, Opts: o}
+	case 3:
+		return Op{Name: "collapse", Opts: o}
+	case 4:
+		return Op{Name: "indent", I: []int{g.r.Intn(4) - 1}, Opts: o}
+	case 5:
+		return Op{Name: "apply", I: []int{g.r.Intn(6)}, Opts: o}
+	case 6:
+		return Op{Name: "applyparas", I: []int{g.r.Intn(6)}, Opts: o}
+	case 7:
+		p := g.pct()
+		m, e := frexp(p)
+		return Op{Name: "twocols", I: []int{g.pos(n), g.r.Intn(5), g.width()}, S: []string{g.cell(6, deg), g.cell(6, deg)}, M: m, E: e, Pct: p, Opts: o}
+	case 8:
+		k := g.r.Intn(4)
+		var defs [][2]string
+		for i := 0; i < k; i++ {
+			defs = append(defs, [2]string{strings.TrimSpace(g.cell(2, deg)), g.cell(8, deg)})
+		}
+		return Op{Name: "deftable", I: []int{g.pos(n), g.width()}, Defs: defs, Opts: o}
+	case 9:
+		rows := g.r.Intn(4)
+		var data [][]string
+		for i := 0; i < rows; i++ {
+			var row []string
+			for j := g.r.Intn(4); j > 0; j-- {
+				row = append(row, g.cell(2, deg))
+			}
+			data = append(data, row)
+		}
+		return Op{Name: "table", I: []int{g.pos(n), g.width()}, Data: data, Opts: o}
+	case 10:
+		return Op{Name: "wrap", I: []int{g.width()}, Opts: o}
+	default:
+		return Op{Name: "justify", I: []int{g.width()}, Opts: o}
+	}
+}
+
+// optsCase: the same operation with (0) XOpts(o), (1,2) WithOptions(o).X, (3) XOpts(o with some unset
+// fields made explicit), (4) XOpts(o.WithDefaults()); then WithDefaults once and twice
+func (g *G) optsCase(stream, id string, deg bool) Case {
+	o := g.opts(sepPairs, false)
+	if o == nil {
+		o = &rosed.Options{}
+	}
+	ls, ps := optsSeps(o)
+	t := g.text(8, deg, ls, ps)
+	op := g.anyOp(t, deg, o)
+	c := Case{ID: id, Stream: stream, Pool: []string{t}}
+	op.Recv = 0
+	c.Steps = append(c.Steps, op)
+	c.Steps = append(c.Steps, Op{Recv: 0, Name: "withopts", Opts: o})
+	op2 := op
+	op2.Opts = nil
+	op2.Recv = 2
+	c.Steps = append(c.Steps, op2)
+	o3 := g.explicitDefaults(*o)
+	op3 := op
+	op3.Opts = &o3
+	c.Steps = append(c.Steps, op3)
+	o4 := o.WithDefaults()
+	op4 := op
+	op4.Opts = &o4
+	c.Steps = append(c.Steps, op4)
+	c.Steps = append(c.Steps, Op{Recv: 0, Name: "withopts", Opts: &o4})
+	o5 := o4.WithDefaults()
+	c.Steps = append(c.Steps, Op{Recv: 0, Name: "withopts", Opts: &o5})
+	return c
+}
+
+var degenerateTexts = []string{"", " ", "\n", "\n\n", "\n\n\n", "\u0301", "\u200d", " \u0301", "\t", "\r\n", "a", "\u0600", "\U0001F1E9",
+	"   \n   ", "\n \n", "x\n\n", "\n\nx", "\u0903\u0903", "\ufe0f\ufe0f", "- -", "\u0001"}
+
+func (g *G) totalCase(stream, id string) Case {
+	var t string
+	if g.chance(0.5) {
+		t = g.pick(degenerateTexts)
+	} else {
+		t = g.text(4, true, "\n", "\n\n")
+	}
+	o := g.opts(sepPairs, false)
+	var op Op
+	n := clusterCount(t)
+	switch g.r.Intn(10) {
+	case 0:
+		op = Op{Name: "chars", I: []int{g.pos(n), g.pos(n)}}
+	case 1:
+		op = Op{Name: "lines", I: []int{g.pos(2), g.pos(2)}}
+	case 2:
+		op = Op{Name: "insert", I: []int{g.pos(n)}, S: []string{g.pick(degenerateTexts)}}
+	case 3:
+		op = Op{Name: "delete", I: []int{g.pos(n), g.pos(n)}}
+	case 4:
+		op = Op{Name: "overtype", I: []int{g.pos(n)}, S: []string{g.pick(degenerateTexts)}}
+	default:
+		op = g.anyOp(t, true, o)
+		if g.chance(0.3) {
+			// degenerate cells, terms, columns
+			switch op.Name {
+			case "twocols":
+				op.S = []string{g.pick(degenerateTexts[:12]), g.pick(degenerateTexts[:12])}
+			case "deftable":
+				op.Defs = [][2]string{{g.pick(degenerateTexts[5:13]), g.pick(degenerateTexts[:12])}, {"", ""}}
+			case "table":
+				op.Data = [][]string{{}, {g.pick(degenerateTexts[5:13]), ""}, {}}
+			}
+		}
+	}
+	return g.viaEditor(one(stream, id, t, op))
 }
